@@ -716,6 +716,21 @@ def swProjCheck (E : SWCfg F) (P : SWProj F) : Outcome Bool :=
   | .panic => .panic
   | .ok a => .ok (swCheck E a)
 
+/-- `Valid::batch_check` (default body, sequential): `check` on every item -/
+def swBatchCheck (E : SWCfg F) (Ps : List (SWAff F)) : Bool := Ps.all (swCheck E)
+
+/-- one entry of `Projective::normalize_batch`: `z` inverted by `batch_inversion` (a zero stays zero),
+    identity for `is_zero()`, else `(X·z⁻², Y·z⁻²·z⁻¹)` -/
+def swNormalize (g : SWProj F) : SWAff F :=
+  if g.isZero then SWAff.identity
+  else
+    let z := g.z⁻¹
+    let z2 := z * z
+    ⟨g.x * z2, g.y * z2 * z, false⟩
+
+/-- `Valid::batch_check for Projective`: `normalize_batch`, then `Affine::batch_check` -/
+def swProjBatchCheck (E : SWCfg F) (Ps : List (SWProj F)) : Bool := swBatchCheck E (Ps.map swNormalize)
+
 /-! ## Twisted Edwards -/
 
 /-- `twisted_edwards::Affine { x, y }` -/
@@ -831,6 +846,24 @@ def teProjSerialize (K : Codec F) (P : TEProj F) (compress : Compress) : Res (Li
 def teProjDeserialize (K : Codec F) (E : TECfg F) (compress : Compress) (validate : Validate) : M (TEProj F) := do
   let aff ← teDeserialize K E compress validate
   pure (teFromAffine aff)
+
+/-- `Valid::check for Projective`: `self.into_affine().check()` -/
+def teProjCheck (E : TECfg F) (P : TEProj F) : Outcome Bool :=
+  match teToAffine P with
+  | .panic => .panic
+  | .ok a => .ok (teCheck E a)
+
+def teBatchCheck (E : TECfg F) (Ps : List (TEAff F)) : Bool := Ps.all (teCheck E)
+
+/-- one entry of `Projective::normalize_batch`: `(X·z⁻¹, Y·z⁻¹)`, `batch_inversion` leaves a zero `z` zero -/
+def teNormalize (g : TEProj F) : TEAff F :=
+  if g.isZero then TEAff.zero
+  else
+    let z := if g.z = 0 then 0 else g.z⁻¹
+    ⟨g.x * z, g.y * z⟩
+
+/-- `Valid::batch_check for Projective` -/
+def teProjBatchCheck (E : TECfg F) (Ps : List (TEProj F)) : Bool := teBatchCheck E (Ps.map teNormalize)
 
 /-! ## Spec-level affine twisted-Edwards group (for the subgroup test and the verdicts)
 
